@@ -34,9 +34,17 @@ pub struct Case {
     pub dt: u64,
     pub id: u64,
     pub upd: Option<Upd>,
+    /// sub-second part of the block time of every query (block times are nanoseconds; epochs are
+    /// defined in whole seconds, so this must never show in an id or a start time)
+    #[serde(default)]
+    pub sub_ns: u32,
 }
 
 pub struct C18;
+
+thread_local! {
+    static SUB_NS: std::cell::Cell<u32> = const { std::cell::Cell::new(0) };
+}
 
 fn duration_strat() -> impl Strategy<Value = u64> {
     prop_oneof![
@@ -68,8 +76,8 @@ fn case_strat() -> impl Strategy<Value = Case> {
         (0u64..5000, prop_oneof![Just(-1i64), Just(0), Just(1), -100_000i64..100_000, Just(i64::MIN)]),
         // dt for monotonicity
         prop_oneof![Just(0u64), Just(1), 0u64..3 * DAY, Just(u64::MAX)],
-        // id class
-        (0u8..8, 0u64..1000, any::<u64>()),
+        // id class (and the sub-second part of query block times)
+        (0u8..8, 0u64..1000, any::<u64>(), prop_oneof![2 => Just(0u32), 1 => Just(1u32), 1 => Just(999_999_999u32), 2 => 0u32..1_000_000_000]),
         proptest::option::weighted(
             0.5,
             (
@@ -81,7 +89,7 @@ fn case_strat() -> impl Strategy<Value = Case> {
             ),
         ),
     )
-        .prop_map(|(inst_time, duration, (gsign, goff), (k, jit), dt, (idc, idsmall, idrand), upd)| {
+        .prop_map(|(inst_time, duration, (gsign, goff), (k, jit), dt, (idc, idsmall, idrand, sub_ns), upd)| {
             let genesis = match gsign {
                 0 => inst_time,
                 -1 => inst_time.saturating_sub(goff),
@@ -125,7 +133,7 @@ fn case_strat() -> impl Strategy<Value = Case> {
                 };
                 Upd { at: at_t, genesis: g2, duration: d2, by_owner, with_funds }
             });
-            Case { inst_time, genesis, duration, now, dt, id, upd }
+            Case { inst_time, genesis, duration, now, dt, id, upd, sub_ns }
         })
 }
 
@@ -147,7 +155,11 @@ fn env_at(t: u64) -> cosmwasm_std::Env {
 impl Sut {
     fn q<T: serde::de::DeserializeOwned>(&self, t: u64, q: QueryMsg) -> Result<T, String> {
         let deps = self.deps.as_ref();
-        match catch_unwind(AssertUnwindSafe(|| epoch_manager::contract::query(deps, env_at(t), q))) {
+        let mut env = env_at(t);
+        if t < MAX_TS {
+            env.block.time = env.block.time.plus_nanos(SUB_NS.with(|c| c.get()) as u64 % 1_000_000_000);
+        }
+        match catch_unwind(AssertUnwindSafe(|| epoch_manager::contract::query(deps, env, q))) {
             Ok(Ok(b)) => from_json::<T>(&b).map_err(|e| format!("undecodable response: {e}")),
             Ok(Err(e)) => Err(e.to_string()),
             Err(p) => Err(format!("PANIC: {}", crate::world::panic_msg(p))),
@@ -293,6 +305,10 @@ impl Engine for C18 {
         case_strat().boxed()
     }
     fn run(&self, c: &Case, st: &mut Stats) -> Result<(), String> {
+        SUB_NS.with(|x| x.set(c.sub_ns));
+        if c.sub_ns % 1_000_000_000 != 0 {
+            st.bump("queries at a block time with a sub-second part");
+        }
         let api = MockApi::default();
         let owner = api.addr_make("owner");
         let stranger = api.addr_make("stranger");
